@@ -2328,7 +2328,12 @@ pub fn new_manager<
             let store = &*gc_mref.0;
             loop {
                 let mut lock = store.gc_signal.0.lock();
-                store.gc_signal.1.wait(&mut lock);
+                // The last `ManagerRef` may have been dropped (and `Quit`
+                // signalled) before this thread started waiting. Notifications
+                // are not queued, so check the signal first.
+                if *lock != GCSignal::Quit {
+                    store.gc_signal.1.wait(&mut lock);
+                }
                 if *lock == GCSignal::Quit {
                     break;
                 }
